@@ -600,8 +600,19 @@ def part_big_literals(ctx):
     for _ in range(40 if ctx.tier == 'quick' else 1500):
         a = 2 ** rng.randint(53, 90) + rng.randint(1, 10 ** 6) * 2 + 1
         b = a - rng.randint(1, 9)
-        shape = rng.randrange(6)
-        if shape == 0:
+        shape = rng.randrange(8)
+        if shape >= 6:
+            # the same value wherever the expression is used: in raw units a
+            # duration or delay of minutes is a number far beyond 16 bits, and
+            # the register holds what the expression came to
+            m = rng.choice([2, 5, 90, 1440])
+            reg = rng.choice(['duration', 'time'])
+            text = ('units raw assign zz_m {m} {reg} {{ zz_m * 60 * 1000 }} '
+                    'print {reg} print {{ {reg} + 1 }} assign zz_v '
+                    '{{ zz_m * 60 * 1000 }} print zz_v {reg} 0'
+                    .format(m=m, reg=reg))
+            want = [m * 60000, m * 60000 + 1, m * 60000]
+        elif shape == 0:
             text, want = 'print {{ {} - {} }}'.format(a, b), [a - b]
         elif shape == 1:
             text, want = 'print {{ {} % 10 }} print {{ {} % 7 }}'.format(a, b), \
